@@ -69,6 +69,7 @@ pub fn execute(scn: &HwScn, ctx: &mut Ctx) {
     // per-call expectations
     let mut written_so_far: Vec<usize> = Vec::new();
     let mut clean_since_fin = false; // a successful finalize happened and nothing was written since
+    let mut rejected_since_fin = false;
     for m in &run.marks {
         if let CallRes::Panic(msg, loc) = &m.res {
             let prop = if m.call.starts_with("write-other") { "C10" } else { "C09" };
@@ -85,6 +86,7 @@ pub fn execute(scn: &HwScn, ctx: &mut Ctx) {
             if m.res != want {
                 ctx.fail("C10", "rejected-error", format!("{}", type_name(ty)), format!("history {}: write of a {} into a {} writer returned {}", pat, type_name(offered_ty), type_name(ty), m.res.short()));
             }
+            rejected_since_fin = true;
             if m.end_ev != m.first_ev {
                 ctx.fail("C10", "rejected-no-io", "events", format!("history {}: the rejected write issued {} device operations", pat, m.end_ev - m.first_ev));
             }
@@ -95,6 +97,14 @@ pub fn execute(scn: &HwScn, ctx: &mut Ctx) {
                 written_so_far.push(*i);
             }
             clean_since_fin = false;
+        } else if m.call == "drop" {
+            // Drop runs finalize: with nothing new to commit it must not touch the devices either
+            if clean_since_fin && m.end_ev != m.first_ev {
+                ctx.fail("C09", "idle-finalize-no-io", format!("{}:drop", hsite), format!("history {}: dropping a writer with nothing new to commit issued {} device operations", pat, m.end_ev - m.first_ev));
+                if rejected_since_fin {
+                    ctx.fail("C10", "rejected-changes-nothing", "dirty-after-rejected-write", format!("history {}: after finalize; rejected write(s); drop, the drop issued {} device operations", pat, m.end_ev - m.first_ev));
+                }
+            }
         } else if m.call == "finalize" {
             if !m.res.is_ok() {
                 ctx.fail("C09", "finalize-ok", hsite, format!("history {}: finalize returned {}", pat, m.res.short()));
@@ -102,7 +112,12 @@ pub fn execute(scn: &HwScn, ctx: &mut Ctx) {
             }
             if clean_since_fin && m.end_ev != m.first_ev {
                 ctx.fail("C09", "idle-finalize-no-io", hsite, format!("history {}: finalize with nothing new to commit issued {} device operations", pat, m.end_ev - m.first_ev));
+                if rejected_since_fin {
+                    // C10 "changes nothing else": a rejected write must not make the writer believe it has something to commit
+                    ctx.fail("C10", "rejected-changes-nothing", "dirty-after-rejected-write", format!("history {}: after finalize; rejected write(s); finalize, the second finalize issued {} device operations", pat, m.end_ev - m.first_ev));
+                }
             }
+            rejected_since_fin = false;
             if !clean_since_fin {
                 ctx.stats.reach("finalize-with-work");
             } else {
